@@ -176,10 +176,12 @@ def processCase (c : Case) : String := Id.run do
     | ["q", cn, dir, ns] => some (cn, dir, natList ns)
     | _ => none
   -- ---------------------------------------------------------------- description
+  let askedL := ((c.body.find? (·.startsWith "asked ")).map (fun l => ((words l)[1]?.getD "-").splitOn ",")).getD []
   let aliveTasks := objs.filter fun o => o.kind == "task" && o.s == 0
   let aliveCaps := objs.filter fun o => o.kind == "cap" && o.s == 0
   let heldN := (kvNat stopL "held").getD 0
-  let aliveBodies0 := (objs.filter fun o => o.kind == "body" && o.s == 0).length
+  let aliveCredits := ((objs.filter (·.kind == "zbody")).map fun o => o.c - o.s).foldl (· + ·) 0
+  let aliveBodies0 := (objs.filter fun o => o.kind == "body" && o.s == 0).length + aliveCredits
   -- live bodies that are in none of the other places are unread messages of an AsyncFn `hold` task
   let inboxN := min 8 (aliveBodies0 - (fes + queued + kept + heldN))
   let firstHold := ms.findIdx? fun m => m.afn && m.wait == "hold" && aliveCaps.any (fun o => baseTag o.tag == m.name)
@@ -207,7 +209,8 @@ def processCase (c : Case) : String := Id.run do
               if here then List.replicate heldN ⟨true, none⟩ else []⟩
       else none
     if afn.any (·.sleeping.isSome) then slot := slot + 1
-    mods := mods ++ [⟨m.parent, m.pe, running, if running then tds else [], if running then slot else 0, keptHere, afn⟩]
+    mods := mods ++ [⟨m.parent, m.pe, running, if running then tds else [], if running then slot else 0, keptHere, afn,
+                      askedL.contains m.name⟩]
     mi := mi + 1
   let (gates, links) := wiring cs qs
   let firstChan := (links.findIdx? (·.chan)).getD 0
@@ -232,11 +235,11 @@ def processCase (c : Case) : String := Id.run do
   let mleak := (leaked d).map kindOfNode
   let isWired := wired d
   -- ---------------------------------------------------------------- acceptance rule on the counters
-  let bad := objs.filter fun o => o.d != o.c || o.c != 1 || o.l != o.d
+  let bad := objs.filter fun o => o.d != o.c || (o.c != 1 && o.kind != "zbody") || o.l != o.d
   let olate := (objs.filter fun o => o.l != o.d).map (·.kind)
-  let norm (k : String) : String := if k == "cap" then "task" else k
-  let oleak := (objs.filter fun o => o.d < o.c).map (norm ·.kind)
-  let odouble := (objs.filter fun o => o.d > o.c).map (norm ·.kind)
+  let norm (k : String) : String := if k == "cap" then "task" else if k == "zbody" then "body" else k
+  let oleak := (objs.filter fun o => o.d < o.c).flatMap fun o => List.replicate (o.c - o.d) (norm o.kind)
+  let odouble := (objs.filter fun o => o.d > o.c).flatMap fun o => List.replicate (o.d - o.c) (norm o.kind)
   let kinds := ["mod", "pe", "task", "body", "probe"]
   let nobjs := objs.length
   match bad.head? with
@@ -253,6 +256,12 @@ def processCase (c : Case) : String := Id.run do
     let ctxLeak := (leaked { d with taskCtx := true }).map kindOfNode
     let ctxExplained := odouble.isEmpty && !ctxLeak.isEmpty && countKind ctxLeak "task" == countKind oleak "task"
     let mper := mper ++ (if ctxExplained then "] tag=task-captures-ctx taskctx-model=[task=" ++ toString (countKind ctxLeak "task") else "")
+    -- does a cached strong parent handle (model variant `parentCache`) explain it?
+    let pcLeak := (leaked { d with parentCache := true }).map kindOfNode
+    let pcExplained := odouble.isEmpty && !pcLeak.isEmpty && kinds.all fun k => k == "body" || countKind pcLeak k == countKind oleak k
+    let mper := mper ++ (if pcExplained then "] tag=parent-cache parentcache-model=[mod=" ++ toString (countKind pcLeak "mod") else "")
+    let zleak : Nat := ((objs.filter (·.kind == "zbody")).map fun o => o.c - o.d).foldl (· + ·) 0
+    let mper := mper ++ (if zleak > 0 then "] zero-sized-bodies-leaked=[" ++ toString zleak else "")
     let hookLeak := (leaked { d with hookGlobals := true }).map kindOfNode
     let hookExplained := odouble.isEmpty && !hookLeak.isEmpty && kinds.all fun k => countKind hookLeak k == countKind oleak k
     let mper := mper ++ (if hookExplained then "] tag=hook-holds-globals hook-model=[mod=" ++ toString (countKind hookLeak "mod") else "")
@@ -298,7 +307,7 @@ def processCase (c : Case) : String := Id.run do
     return s!"fail {id} op=0 kind=diverge what=task-census model={mTasks} impl={aliveTasks.length}"
   if downTasks != 0 then
     return s!"fail {id} op=0 kind=diverge what=task-alive-in-shut-down-module n={downTasks}"
-  let aliveBodies := (objs.filter fun o => o.kind == "body" && o.s == 0).length
+  let aliveBodies := aliveBodies0
   -- a sender task that is due may still run (and send into the static buffer) inside `finish()`
   let senders := (aliveTasks.filter fun o => (ts.find? fun t => t.tag == baseTag o.tag).any (·.sends)).length
   let room := fes + queued + kept + bufN + senders + heldN + 8 * aliveCaps.length
